@@ -37,6 +37,8 @@ pub trait Inner {
 impl<T: Serialize + serde::de::DeserializeOwned> Inner for ProtocolKey<T> {
     type T = T;
 }
+pub type EdSignature = <mithril_common::crypto_helper::ed25519::Ed25519Signature as Inner>::T;
+pub type EdVerificationKey = <mithril_common::crypto_helper::ed25519::Ed25519VerificationKey as Inner>::T;
 pub type Sum6KesSig =
     <mithril_common::crypto_helper::ProtocolSignerVerificationKeySignatureForConcatenation as Inner>::T;
 
@@ -93,16 +95,27 @@ fn craft_sig(sig: &Value, idx: &[u64]) -> Value {
 pub fn build(seed: u64) -> Store {
     let mut st = Store { vals: vec![], meta: vec![] };
     let mut rng = vh_core::rng(seed, 505);
-    let worlds: Vec<(Vec<u64>, u64, u64)> =
-        vec![(vec![1, 1], 4, 3), (vec![3, 5, 2], 8, 5), (vec![10, 1, 1, 7], 12, 9)];
+    // (stakes, m, k, phi_f): the last two worlds need several signers to reach the quorum
+    let worlds: Vec<(Vec<u64>, u64, u64, f64)> = vec![
+        (vec![1, 1], 4, 3, 1.0),
+        (vec![3, 5, 2], 8, 5, 1.0),
+        (vec![10, 1, 1, 7], 12, 9, 1.0),
+        (vec![5, 5, 5, 5], 40, 12, 0.5),
+        (vec![9, 3, 4, 8, 6], 60, 20, 0.6),
+    ];
     let mut first_agg_json: Option<Value> = None;
-    for (wi, (stakes, m, k)) in worlds.iter().enumerate() {
-        let params = Parameters { m: *m, k: *k, phi_f: 1.0 };
+    for (wi, (stakes, m, k, phi_f)) in worlds.iter().enumerate() {
+        let params = Parameters { m: *m, k: *k, phi_f: *phi_f };
         let w = World::new(params, stakes, &mut rng);
-        let msg = format!("c05 honest message {wi}").into_bytes();
-        let sigs: Vec<SingleSignature> =
-            w.signers.iter().filter_map(|s| s.create_single_signature(&msg).ok()).collect();
-        let agg = w.aggregate(&sigs, &msg).expect("honest aggregate");
+        // first message (deterministic order) on which the honest signers reach the quorum
+        let (sigs, agg) = (0..200u32)
+            .find_map(|t| {
+                let msg = format!("c05 honest message {wi}/{t}").into_bytes();
+                let sigs: Vec<SingleSignature> =
+                    w.signers.iter().filter_map(|s| s.create_single_signature(&msg).ok()).collect();
+                w.aggregate(&sigs, &msg).ok().map(|a| (sigs, a))
+            })
+            .expect("honest aggregate");
         let aj = serde_json::to_value(&agg).unwrap();
         if first_agg_json.is_none() {
             first_agg_json = Some(aj.clone());
@@ -243,6 +256,16 @@ pub fn build(seed: u64) -> Store {
         let k = k.into_inner();
         let b = k.to_bytes_vec().unwrap();
         st.add("OpCert", "opcert0".into(), k, Some(("cbor", b)));
+    }
+    {
+        use mithril_common::crypto_helper::ed25519::Ed25519Signer;
+        let signer = Ed25519Signer::create_deterministic_signer();
+        let sig: EdSignature = signer.sign(b"c05 genesis message").into_inner();
+        let b = sig.to_bytes_vec().unwrap();
+        st.add("Ed25519Signature", "edsig0".into(), sig, Some(("fixed", b)));
+        let vk: EdVerificationKey = signer.verification_key().into_inner();
+        let b = vk.to_bytes_vec().unwrap();
+        st.add("Ed25519VerificationKey", "edvk0".into(), vk, Some(("fixed", b)));
     }
     st
 }
